@@ -16,11 +16,13 @@ def bitlen(x):
 class Decl:
     """variants: [(name, value, literal_text, display or None, [alt values])]"""
 
-    def __init__(self, tag, variants, bits=None, layout=0):
+    def __init__(self, tag, variants, bits=None, layout=0, decor=0):
         self.tag = tag
         self.variants = variants
         self.bits = bits
         self.layout = layout
+        # decor: unrelated attributes / doc comments on the enum and its variants (0 = none)
+        self.decor = decor
 
     def expected_bits(self):
         return self.bits if self.bits is not None else bitlen(max(v[1] for v in self.variants))
@@ -33,8 +35,21 @@ class Decl:
         if self.bits is not None:
             lines.append(f"#[bits({self.bits})]")
         lines.append("#[repr(u8)]")
+        if self.decor:
+            lines.insert(0, "/// A documented alphabet.")
+            lines.append("#[allow(dead_code, clippy::upper_case_acronyms)]")
         lines.append(f"pub enum {name} {{")
-        for v in self.variants:
+        for vi, v in enumerate(self.variants):
+            if self.decor == 1:
+                lines.append(f"    /// the symbol `{v[0]}`")
+            elif self.decor == 2:
+                lines.append("    #[allow(dead_code)]")
+                lines.append(f"    #[doc = \"symbol {vi}\"]")
+            elif self.decor == 3:
+                lines.append("    #[cfg_attr(any(), deprecated)]")
+                if vi % 2:
+                    lines.append("    #[doc(hidden)]")
+                lines.append("    /** block doc */")
             # attribute layout: self.layout selects how the alternatives are spread over #[alt] attributes
             # and where #[display] sits (0: display first, one #[alt(a, b)]; 1: one #[alt] per alternative,
             # display last; 2: #[alt(a)] #[display] #[alt(b)]; 3: one #[alt(a, b,)] with trailing comma, display last)
@@ -55,7 +70,7 @@ class Decl:
         return lines
 
     def describe(self):
-        return {"tag": self.tag, "bits": self.bits, "layout": self.layout, "variants": [[v[0], v[2], v[3], v[4]] for v in self.variants]}
+        return {"tag": self.tag, "bits": self.bits, "layout": self.layout, "decor": self.decor, "variants": [[v[0], v[2], v[3], v[4]] for v in self.variants]}
 
 
 def char_lit(c):
@@ -119,6 +134,10 @@ def grammar(tier, seed):
     for lay in range(4):
         ds.append(Decl(f"G4b two-alt variants layout={lay}", [("A", 0, "0", "*", [5, 6]), ("C", 1, "1", None, []), ("G", 2, "2", "g", [3, 7])], bits=3, layout=lay))
         ds.append(Decl(f"G4b five alternatives layout={lay}", [("L", 13, "0b001101", None, [15, 47, 61, 29, 45]), ("M", 44, "0b101100", None, []), ("X", 3, "3", "*", [11, 35])], bits=6, layout=lay))
+    # G7: doc comments and unrelated attributes on the enum and on its variants must not disturb the derive
+    for decor in (1, 2, 3):
+        ds.append(Decl(f"G7 decorated (style {decor}) plain", [("A", 0, "0", None, []), ("C", 1, "1", None, []), ("G", 2, "2", None, []), ("T", 3, "3", None, [])], decor=decor))
+        ds.append(Decl(f"G7 decorated (style {decor}) with display/alt", [("A", 0, "0", "*", [5, 6]), ("C", 1, "1", None, []), ("G", 2, "2", "g", [3, 7])], bits=3, layout=decor, decor=decor))
     # G5: variant counts
     for n in [2, 3, 5, 16, 17, 32, 33, 40]:
         nm = names(n)
@@ -375,7 +394,7 @@ def replay(rec, root, env):
         for (name, lit, disp, alts) in dd["variants"]:
             val = ord(lit[2]) if lit.startswith("b'") else int(lit.replace("u8", "").replace("_", ""), 0)
             vs.append((name, val, lit, disp, alts))
-        positive_programs(res, [Decl(dd["tag"], vs, dd["bits"], dd.get("layout", 0))], root, env, c["release"], "replay")
+        positive_programs(res, [Decl(dd["tag"], vs, dd["bits"], dd.get("layout", 0), dd.get("decor", 0))], root, env, c["release"], "replay")
     elif c["kind"].startswith("negative"):
         negative_program(res, root, env, c["release"], only=c["name"] if c["kind"] == "negative" else None)
     r = res.done()
